@@ -657,7 +657,7 @@ func (w *pworld) scenario(id string, thorough bool) {
 			q := CalculateQuorum(len(curSet))
 			perm := r.Perm(len(curSet))
 			cnt := q
-			kind := r.Intn(13)
+			kind := r.Intn(14)
 			if kind == 0 && q > 1 {
 				cnt = q - 1
 			}
@@ -706,6 +706,8 @@ func (w *pworld) scenario(id string, thorough bool) {
 			case 11:
 				// a valid quorum with the last signature duplicated
 				b = w.signedVAA(base, g, ks, append(append([]int{}, idx...), idx[len(idx)-1]))
+			case 13:
+				b = w.signedVAA(base, g, ks, nil) // no signatures at all
 			case 12:
 				// quorum-1 distinct signers plus one of them again
 				if len(idx) >= 2 {
@@ -715,6 +717,29 @@ func (w *pworld) scenario(id string, thorough bool) {
 				}
 			}
 			do(w.inbound(b))
+		case c < 88 && r.Intn(12) == 0: // a guardian set without keys is delivered, some traffic, then a proper set again
+			saved := curSet
+			do(w.setUpdate(mkgs(w.gs.Index+1, nil)))
+			if alive {
+				m := newMsg()
+				do(w.message(m.k))
+				if alive {
+					msgs = append(msgs, m)
+					collectLoop(m)
+					do(w.observation(w.obsFor(saved[r.Intn(len(saved))], m.digest)))
+				}
+			}
+			if alive {
+				do(w.inbound(w.signedVAA(newMsg().v, w.prev, saved, []int{0})))
+			}
+			if alive && r.Intn(2) == 0 {
+				w.advance(31 * time.Second)
+				do(w.cleanup(preqCap))
+			}
+			if alive {
+				prevSet = saved
+				do(w.setUpdate(mkgs(w.gs.Index+1, saved)))
+			}
 		case c < 88: // guardian-set update
 			if w.gs.Index < 1<<31 {
 				ns := append([]pkey{}, curSet...)
